@@ -29,10 +29,13 @@ SHAPES = [
 SHAPES += [("q*q-q (repeated)", 2, lambda a, b: B("-", B("*", a, a), b)), ("q+c", 1, lambda a: B("+", a, N("1"))), ("c-q/q", 2, lambda a, b: B("-", N("0.5"), B("/", a, b)))]
 SHAPES += [("tiny*q+q", 2, lambda a, b: B("+", B("*", N("1e-13"), a), b)), ("digits*q", 1, lambda a: B("*", N("1.23456789e-7"), a)),
            ("huge*q-q", 2, lambda a, b: B("-", B("*", N("1e15"), a), b)), ("q/big", 1, lambda a: B("/", a, N("3e12")))]
+# declared variables whose names contain something that looks like a register
+SHAPES += [("freq1*q", 1, lambda a: B("*", V("freq1"), a)), ("q/sq2-q", 2, lambda a, b: B("-", B("/", a, V("sq2")), b)), ("q1a+q*q0x", 1, lambda a: B("+", V("q1a"), B("*", a, V("q0x")))),
+           ("q-aq10", 1, lambda a: B("-", a, V("aq10")))]
 SHAPES_T = [("q*q*q-q", 4, lambda a, b, c, d: B("-", B("*", B("*", a, b), c), d)), ("q**2-q/q", 3, lambda a, b, c: B("-", B("**", a, N("2")), B("/", b, c)))]
 
 
-LIGHT = {"tiny*q+q", "digits*q", "huge*q-q", "q/big", "q*q-q (repeated)", "q+c", "c-q/q"}
+LIGHT = {"freq1*q", "q/sq2-q", "q1a+q*q0x", "q-aq10", "tiny*q+q", "digits*q", "huge*q-q", "q/big", "q*q-q (repeated)", "q+c", "c-q/q"}
 
 
 def make_script(expr, pos, context):
@@ -43,15 +46,17 @@ def make_script(expr, pos, context):
         s = ("stmt", "G", [N("0.5")], [("k", expr), ("j", N("7"))], [N("0"), N("1")], "sq")
     else:
         s = ("stmt", "G", [expr, B("*", N("2"), expr)], [("k", expr)], [N("2")], "none")
+    used = lang.names_used(expr)
+    x = [x] + [("decl", "float", nm, N(val)) for nm, val in (("freq1", "0.75"), ("sq2", "1.5"), ("q1a", "2.25"), ("q0x", "0.25"), ("aq10", "3.5")) if nm in used]
     if context == "plain":
-        items = [x, s]
+        items = x + [s]
     elif context == "after-measure":
-        items = [x, ("stmt", "MeasureX", None, [], [N("0")], "none"), s, ("stmt", "H", [N("3")], [], [N("1")], "none")]
+        items = x + [("stmt", "MeasureX", None, [], [N("0")], "none"), s, ("stmt", "H", [N("3")], [], [N("1")], "none")]
     else:   # loop: the same statement node is replayed with a coefficient taken from the loop variable
         op, args, kwargs = s[1], s[2], s[3]
         scale = lambda e: B("+", B("*", V("m"), e), V("m")) if e[0] in ("bin", "reg") else e
         s2 = ("stmt", op, [scale(a) for a in args], [(k, scale(v)) for k, v in kwargs], [V("m")], "none")
-        items = [x, ("for", "int", "m", ("range", 1, 4, None), [s2])]
+        items = x + [("for", "int", "m", ("range", 1, 4, None), [s2])]
     return dict(name="r", version="1.0", items=items)
 
 
